@@ -62,6 +62,8 @@ impl TerminationModel {
             T::QueryRuntimeLimit { limit, frequency } => {
                 if iteration % frequency == 0 {
                     let dur = Instant::now().duration_since(*start_time);
+                    #[cfg(feature = "verif")]
+                    let dur = verif_clock::elapsed(iteration).unwrap_or(dur);
                     Ok(dur > *limit)
                 } else {
                     Ok(false)
@@ -123,6 +125,27 @@ impl TerminationModel {
                 }
             }
         }
+    }
+}
+
+/// verification hook (feature `verif`, off by default): a per-thread virtual clock
+/// `elapsed(iteration) = base + per_iteration * iteration` consulted instead of the wall clock,
+/// so that "stops at the next scheduled check" can be observed deterministically.
+#[cfg(feature = "verif")]
+pub mod verif_clock {
+    use std::cell::Cell;
+    use std::time::Duration;
+    thread_local! {
+        static CLOCK: Cell<Option<(u64, u64)>> = const { Cell::new(None) };
+    }
+    /// `Some((base_ns, per_iteration_ns))` installs the virtual clock, `None` removes it
+    pub fn set(clock: Option<(u64, u64)>) {
+        CLOCK.with(|c| c.set(clock));
+    }
+    pub fn elapsed(iteration: u64) -> Option<Duration> {
+        CLOCK.with(|c| c.get()).map(|(base, per)| {
+            Duration::from_nanos(base.saturating_add(per.saturating_mul(iteration)))
+        })
     }
 }
 
